@@ -24,7 +24,7 @@ type mval struct {
 	Flow bool     `json:"flow,omitempty"`
 }
 
-func ms(s string) *mval { return &mval{S: &s} }
+func ms(s string) *mval    { return &mval{S: &s} }
 func ml(xs ...*mval) *mval { return &mval{L: xs, Seq: true} }
 func mm(kv ...any) *mval {
 	m := &mval{}
@@ -737,7 +737,10 @@ func c19permute(t *rapid.T, c *c19Case) *c19Case {
 	for _, es := range [][]mentry{p.Include, p.Exclude} {
 		for ei := range es {
 			e := &es[ei]
-			perm(len(e.Keys), func(i, j int) { e.Keys[i], e.Keys[j] = e.Keys[j], e.Keys[i]; e.Vals[i], e.Vals[j] = e.Vals[j], e.Vals[i] })
+			perm(len(e.Keys), func(i, j int) {
+				e.Keys[i], e.Keys[j] = e.Keys[j], e.Keys[i]
+				e.Vals[i], e.Vals[j] = e.Vals[j], e.Vals[i]
+			})
 			for _, v := range e.Vals {
 				members(v)
 			}
